@@ -19,8 +19,13 @@ import GmqttVerif.Model.Fed.PeerSession
                      fails ⇒ `nextEventID` is NOT advanced and the stream ends
     deliverAck       `readLoop`: `queue.ack(id)`
     brk              the connection breaks: both buffers are lost, `queue.close()`
-    reconnect opens  `initStream`: Hello processed by R and its answer processed by S; `opens = false`: `client.EventStream`
-                     then fails (break between handshake and stream)
+    reconnect opens mid
+                     `initStream`: Hello processed by R and its answer processed by S; `opens = false`: `client.EventStream`
+                     then fails (break between handshake and stream). `mid` = events that hooks running concurrently put into
+                     the queue in the window of a clean start between `queue.clear()` and the moment `initStream` locks
+                     `localSubStore` for its snapshot (they precede the resynchronisation events; hooks that ran before
+                     `clear()` are ordinary `emit` steps before this one; once the store is locked hooks wait). Ignored when
+                     the handshake does not lead to a clean start.
     helloLost        R processes Hello but the response never reaches S (break DURING the handshake)
     helloFail        the Hello never reaches R (connection refused / lost request)
     peerRestart      R loses its session and S's entries of the federation tree (process restart, or nodeFail on R)
@@ -85,7 +90,7 @@ inductive Label (τ μ : Type)
   | deliver (ackOk : Bool)
   | deliverAck
   | brk
-  | reconnect (opens : Bool)
+  | reconnect (opens : Bool) (mid : List (PBody τ μ))
   | helloLost
   | helloFail
   | peerRestart
@@ -118,10 +123,11 @@ def helloR (cap : Nat) (r : Receiver τ μ) (sid : Nat) : Receiver τ μ × Bool
 
 /-- the client half of `initStream` after the ServerHello arrived; `clean` = the client's decision, `pos` = the id it
     positions the queue at -/
-def helloS (s : Sender τ μ) (clean : Bool) (pos : Nat) : Sender τ μ :=
+def helloS (s : Sender τ μ) (clean : Bool) (pos : Nat) (mid : List (PBody τ μ)) : Sender τ μ :=
   let s1 := if clean then
-      let bs := syncBodies s.topics s.retained
-      { s with q := addAll s.q.clear bs, hist := bs, synced := true, ackFloor := 0 }
+      let tps := mid.foldl applyView s.topics
+      let bs := mid ++ syncBodies tps s.retained
+      { s with q := addAll s.q.clear bs, hist := bs, topics := tps, synced := true, ackFloor := 0 }
     else s
   { s1 with q := s1.q.setReadPosition pos }
 
@@ -171,12 +177,12 @@ def step (fixed : Bool) (cap : Nat) (st : St τ μ) : Label τ μ → Option (St
       | [] => none
     else none
   | .brk => some { st with s := { st.s with q := st.s.q.close }, c := Chan.broken }
-  | .reconnect opens =>
+  | .reconnect opens mid =>
     if st.c.isOpen then none
     else
       let (r', clean, next) := helloR cap st.r st.s.sid
       let clean' := cleanDecision fixed st.s clean next
-      let s' := helloS st.s clean' (if clean' then 0 else next)
+      let s' := helloS st.s clean' (if clean' then 0 else next) mid
       if opens then some { s := { s' with q := s'.q.open }, r := r', c := { up := [], down := [], isOpen := true } }
       else some { s := s', r := r', c := Chan.broken }
   | .helloLost =>
@@ -215,7 +221,7 @@ def Label.isHelloLost : Label τ μ → Bool
 
 /-- labels of a stable connection: no break, no restart, no lost handshake, acks get through -/
 def Label.isStable : Label τ μ → Bool
-  | .fetchSend | .deliver true | .deliverAck | .reconnect true => true
+  | .fetchSend | .deliver true | .deliverAck | .reconnect true [] => true
   | _ => false
 
 end GmqttVerif.Fed.Proto
